@@ -414,6 +414,9 @@ func (env *ExprEnv) callExpr(e *ast.CallExpr) Val {
 		m, k := arg(0), arg(1)
 		f := t.declareFun("$mapget0I", []string{"Int", "Int"}, "Int")
 		return Val{K: KRef, S: sApp(f, m.S, k.S)}
+	case "extfn": // extfn("pkg/path.Func"): identity of a foreign function as a callee (for ret / ncalls of recorded calls)
+		nm, _ := strconv.Unquote(exprString(e.Args[0]))
+		return Val{K: KFunc, S: t.declare("fn:"+nm, "Int")}
 	case "afterdur": // duration given to the last time.AfterFunc call
 		t.regArray("$g:afterdur", "Int")
 		return intVal(t.lookup(env.st, "$g:afterdur"))
